@@ -1,7 +1,7 @@
 import CfbVerif.Spec.Consts
 import CfbVerif.Phys.Api
 import CfbVerif.Phys.Codec
-import CfbVerif.Phys.HeaderBack
+import CfbVerif.Phys.DifatBack
 /-!
 # C02 — write-through persistence: the byte image always reopens to the same state
 
@@ -114,24 +114,23 @@ theorem C02_minifat_reopens (v4 : Bool) (ops : List GOp) (rows : List Row) :
     checkMiniPointees g.p.miniFat 0 [] = .ok () :=
   minifat_reopens_reachable v4 ops rows
 
-/-- **`open` on the rendered image reconstructs the writer's DIFAT and FAT** (files without DIFAT
-sectors): the reader model's `open`, in both modes, reads the header the renderer wrote, takes the
-DIFAT from it, loads, normalises and validates the FAT, and continues on the writer's tables -/
+/-- **`open` on the rendered image reconstructs the writer's DIFAT sectors, DIFAT and FAT**, for
+files of every size: the reader model's `open`, in both modes, reads the header the renderer wrote,
+walks the DIFAT chain, loads, normalises and validates the FAT, and continues on the writer's tables -/
 theorem C02_open_reconstructs_tables (v4 : Bool) (ops : List GOp) (rows : List Row) (m : Raw.Mode) :
     let g := grun { p := Phys.create v4, L := fun _ => 0 } ops
-    g.p.fat.size ≤ MAXREG → SlotsOk (slotsOf g.p rows) → g.p.difatSectorIds = [] → g.p.difat.length ≤ 109 →
+    g.p.fat.size ≤ MAXREG → SlotsOk (slotsOf g.p rows) →
     ∃ h : Raw.Header, readHeader m (render g.p rows) = .ok h ∧ h.v4 = g.p.v4 ∧ h.firstDirSector = g.p.dirStart ∧
       h.firstMiniFatSector = g.p.miniFatStart ∧
-      openImg m (render g.p rows) = openAfterFat m (render g.p rows) h g.p.numSectors [] g.p.difat g.p.fat :=
-  open_fat_stage_reachable v4 ops rows m
+      openImg m (render g.p rows) =
+        openAfterFat m (render g.p rows) h g.p.numSectors g.p.difatSectorIds g.p.difat g.p.fat :=
+  open_fat_stage_all_reachable v4 ops rows m
 
-/-- the premises are met: in an example history (regular and mini streams, a removal) the FAT is within range, no DIFAT sector exists, and an empty row list is well-formed -/
+/-- the premises are met: in an example history (regular and mini streams, a removal) the FAT is within range, and an empty row list is well-formed -/
 def exOps : List GOp :=
   [.create 1, .resize 1 5000, .create 2, .resize 2 9000, .free 1, .create 3, .resize 3 100]
 
 example : (grun { p := Phys.create false, L := fun _ => 0 } exOps).p.fat.size ≤ MAXREG := by decide
-example : (grun { p := Phys.create false, L := fun _ => 0 } exOps).p.difatSectorIds = [] ∧
-    (grun { p := Phys.create false, L := fun _ => 0 } exOps).p.difat.length ≤ 109 := by decide
 example (p : P) : SlotsOk (slotsOf p []) := by
   intro i r h
   unfold slotsOf at h
